@@ -119,7 +119,8 @@ take for escapes, and any non-NUL bytes; pool shared with the harness (`DESCR_PO
 def descrPool : List (List Nat) :=
   [[73, 80, 77, 67], [102, 119, 92, 117, 112, 100, 97, 116, 101], [65, 92, 117, 48, 48, 52, 50, 67], [65, 66, 67],
    [92, 85, 48, 48, 48, 48, 48, 48, 52, 49], [92, 92, 117, 48, 48, 52, 49], [98, 111, 111, 116, 92], [92, 117, 48, 48, 48, 48, 97],
-   [92, 120, 52, 49], [92, 117, 100, 56, 48, 48], [92, 85, 48, 48, 49, 49, 48, 48, 48, 48], [70, 80, 71, 65, 32, 35, 49]]
+   [92, 120, 52, 49], [92, 117, 100, 56, 48, 48], [92, 85, 48, 48, 49, 49, 48, 48, 48, 48], [70, 80, 71, 65, 32, 35, 49],
+   [84, 119, 101, 108, 118, 101, 32, 99, 104, 97, 114, 115]]     -- the last one fills the 12-byte field
 
 def genDescr : Gen (List Nat) := do
   match ← rnd 4 with
